@@ -176,7 +176,31 @@ def viz_shared_producer_in_container(case, msg, observed=None):
     return True
 
 
-MATCHERS = {f.__name__: f for f in (viz_shared_producer_in_container, nested_interrupt_resume, equal_but_distinct_default, stop_iteration_async, waiter_with_edge_default, ambiguous_cycle_entry, empty_map_silent, viz_renamed_boundary, interrupt_handler_wrapped, interrupt_with_edge_default, bound_output_name)}
+def mermaid_id_clash(case, msg, observed=None):
+    """A Mermaid drawing declares one id twice because a node's NAME spells the id Mermaid gives a nested node
+    ('w1__b' next to 'w1/b': '/' is written '__'); every problem involves one of the two clashing nodes or is the duplicate."""
+    if not isinstance(observed, dict) or not isinstance(case, dict) or case.get("view") != "mermaid" or not case.get("graph"):
+        return False
+    probs = observed.get("problems") or []
+    if not any(p.get("code") == 1 for p in probs):
+        return False
+
+    def paths(g, pre=()):
+        for n in g["nodes"]:
+            yield pre + (n["name"],)
+            if n["kind"] == "graph":
+                yield from paths(n["graph"], pre + (n["name"],))
+    allp = list(paths(case["graph"]))
+    spelled = {}
+    for pth in allp:
+        spelled.setdefault("__".join(pth), []).append("/".join(pth))
+    clashing = {x for v in spelled.values() if len(v) > 1 for x in v}
+    if not clashing:
+        return False
+    return all(p.get("code") == 1 or p.get("code") == 5 or p.get("a") in clashing or p.get("b") in clashing for p in probs)
+
+
+MATCHERS = {f.__name__: f for f in (mermaid_id_clash, viz_shared_producer_in_container, nested_interrupt_resume, equal_but_distinct_default, stop_iteration_async, waiter_with_edge_default, ambiguous_cycle_entry, empty_map_silent, viz_renamed_boundary, interrupt_handler_wrapped, interrupt_with_edge_default, bound_output_name)}
 
 
 def classify(ctx, case, msg, observed=None):
